@@ -86,7 +86,7 @@ OnRecv(st0, e) ==
     ELSE LET ps == Pairs(st.cache, e.items)
              mk == Marked(st.cache, e.items, e.t)
              po == Ingest(st.cache, e.items, e.t)
-         IN [st EXCEPT !.lastDid = e.did, !.lastProc = e.t, !.lastQU = FALSE, !.cache = mk,
+         IN [st EXCEPT !.lastDid = e.did, !.lastProc = e.t, !.lastQU = e.qu, !.cache = mk,
                        !.ph = IF ps = <<>> THEN [NoPhase EXCEPT !.inRecv = TRUE]
                               ELSE [k |-> "upd", inRecv |-> TRUE, isPurge |-> FALSE, left |-> st.lst,
                                     pairs |-> ps, post |-> po, bid |-> 0, lax |-> FALSE]]
